@@ -1127,6 +1127,9 @@ class Models:
                         else:
                             out.append(Res("ok", s3, NONE))
                 return out
+        real = {"list": list, "dict": dict, "set": set, "tuple": tuple, "frozenset": frozenset}.get(k)
+        if real is not None and not hasattr(real, name):
+            return [eng.exc(st, "AttributeError", note="'%s' object has no attribute '%s'" % (k, name))]
         raise Unsupported("%s.%s" % (k, name))
 
     def list_index_of(self, eng, st, a, x):
@@ -1253,6 +1256,24 @@ class Models:
 
     def bi_isinstance(self, eng, st, pos, kw, fx):
         return [Res("ok", st, vbool(self.isinstance_(eng, st, pos[0], pos[1])))]
+
+    def bi_issubclass(self, eng, st, pos, kw, fx):
+        h = self.builtin_hooks.get("issubclass")
+        if h is not None:
+            r = h(eng, st, pos, kw, fx)
+            if r is not None:
+                return r
+        a, b = pos
+        if isinstance(a, PClass) and isinstance(b, PClass):
+            return [Res("ok", st, vbool(z3.BoolVal(CLS.is_sub(a.name, b.name))))]
+        a, b = eng.to_val(st, a), eng.to_val(st, b)
+        out = []
+        for s2, ok in eng.split(st, z3.And(is_cls(a), is_cls(b)), note="issubclass of classes"):
+            if ok:
+                out.append(Res("ok", s2, vbool(subcls(c_of(a), c_of(b)))))
+            else:
+                out.append(eng.exc(s2, "TypeError", note="issubclass() arg must be a class"))
+        return out
 
     def bi_hasattr(self, eng, st, pos, kw, fx):
         obj, name = pos
